@@ -52,13 +52,15 @@ class Lock:
 # ------------------------------------------------------------------ Go harness
 # Harness discovery: every directory /verif/harness/<name>/ holds a file PKG naming the /repo package
 # (relative path) its *.go files are injected into (as zz_verif_<name>_<file>), all `//go:build verif`.
-def harness_files(pkg):
+def harness_files(pkg, dirs=None):
     out = []
     hroot = os.path.join(VERIF, "harness")
     for name in sorted(os.listdir(hroot)):
         d = os.path.join(hroot, name)
         pf = os.path.join(d, "PKG")
         if not os.path.isfile(pf) or open(pf).read().strip() != pkg:
+            continue
+        if dirs is not None and name not in dirs:
             continue
         for fn in sorted(os.listdir(d)):
             if fn.endswith(".go"):
@@ -76,24 +78,30 @@ def harness_pkgs():
     return sorted(pk)
 
 
-def overlay_for(pkgs):
+def overlay_for(pkgs, dirs=None):
     repl = {}
     for pkg in pkgs:
-        for name, src in harness_files(pkg):
+        for name, src in harness_files(pkg, dirs):
             repl[os.path.join(REPO, pkg, name)] = src
     return {"Replace": repl}
 
 
-def build_harness(pkg, race=False):
+def build_harness(pkg, race=False, dirs=None):
     """go test -c of the package with our harness injected through -overlay. Always rebuilt from
-    /repo's current working tree (the go build cache makes this cheap when nothing changed)."""
+    the current working tree of REPO (the go build cache makes this cheap when nothing changed).
+    dirs: restrict to these /verif/harness/<dir> directories (default: every directory whose PKG is pkg).
+    The binary name depends on the tree and on dirs, so concurrent checks never share a path."""
     name = pkg.replace("/", "_") + ("_race" if race else "")
+    if dirs is not None:
+        name += "_" + "_".join(sorted(dirs))
+    if REPO != "/repo":
+        name += "_" + hashlib.sha1(REPO.encode()).hexdigest()[:8]
     bindir = os.path.join(WORK, "bin")
     os.makedirs(bindir, exist_ok=True)
     ov = os.path.join(bindir, name + ".overlay.json")
     with open(ov, "w") as f:
-        json.dump(overlay_for([pkg]), f)
-    out = os.path.join(bindir, name + ".test")
+        json.dump(overlay_for([pkg], dirs), f)
+    out = os.path.join(bindir, name + ".%d.test" % os.getpid())
     cmd = ["go", "test", "-c", "-tags", "verif", "-overlay", ov, "-vet=off", "-o", out]
     if race:
         cmd.append("-race")
@@ -104,7 +112,14 @@ def build_harness(pkg, race=False):
         if p.returncode != 0:
             raise BuildError("harness build failed for %s:\n%s" % (pkg, p.stdout[-6000:]))
         log("[go] built %s in %.1fs" % (name, time.time() - t0))
-    return out
+    final = os.path.join(bindir, name + ".test")
+    os.replace(out, final)
+    # a private copy for this process: another check may rebuild `final` while we still run it
+    mine = os.path.join(bindir, name + ".%d.run" % os.getpid())
+    import shutil, atexit
+    shutil.copy2(final, mine)
+    atexit.register(lambda: os.path.exists(mine) and os.remove(mine))
+    return mine
 
 
 class BuildError(Exception):
